@@ -118,7 +118,13 @@ impl PciFunc {
     }
     pub fn write(&mut self, off: u8, v: u32) {
         match off & 0xfc {
-            0x04 => self.command = (v as u16) & COMMAND_WRITABLE,
+            0x04 => {
+                self.command = (v as u16) & COMMAND_WRITABLE;
+                // The error bits of the status register are write-one-to-clear (PCI 3.0, 6.2.3:
+                // bits 8 and 11..15); the other status bits are read-only.
+                let w1c = ((v >> 16) as u16) & 0xf900;
+                self.status &= !w1c;
+            }
             o @ 0x10..=0x24 => {
                 let i = ((o - 0x10) / 4) as usize;
                 let (m, _) = self.bar_mask_and_flags(i);
@@ -128,8 +134,8 @@ impl PciFunc {
         }
     }
     /// Everything software can observe or change, for before/after comparison.
-    pub fn visible_state(&self) -> (u16, [u32; 6]) {
-        (self.command, self.bar_regs)
+    pub fn visible_state(&self) -> (u32, [u32; 6]) {
+        (self.command as u32 | (self.status as u32) << 16, self.bar_regs)
     }
     /// Appends a capability at `off` (must be >= 0x40, 4-aligned) with the given bytes (id, next
     /// are bytes 0 and 1) and returns it; the caller links `next`.
